@@ -227,7 +227,7 @@ func planDemandsWrite(g *GroupCtx) string {
 		if len(g.View.TaintedN) > 0 {
 			return "untaint-below-min"
 		}
-		if g.Cache != nil && g.Cache.Desired < g.Bound() {
+		if g.Cache != nil && g.DesiredBefore(nil) < g.Bound() {
 			return "cloud-below-min"
 		}
 	case oracle.StDecide:
@@ -240,7 +240,7 @@ func planDemandsWrite(g *GroupCtx) string {
 		if (p.Band == "fast" || p.Band == "slow") && p.Taints > 0 && p.Starve == oracle.MustNot && p.Age == oracle.MustNot {
 			return "taint"
 		}
-		if p.Band == "up" && (len(g.View.TaintedN) > 0 || (g.Cache != nil && g.Cache.Desired < g.Bound())) {
+		if p.Band == "up" && (len(g.View.TaintedN) > 0 || (g.Cache != nil && g.DesiredBefore(nil) < g.Bound())) {
 			return "scale-up"
 		}
 	}
@@ -259,7 +259,14 @@ func checkC03(h *History, sc *ScanCtx, g *GroupCtx, r *Report) {
 		return
 	}
 	U := len(g.View.Untainted)
-	adds := len(g.TaintAddTry)
+	adds := len(g.TaintAdds)
+	for _, e := range g.Events {
+		if e.API == sim.K8sUpdate && e.Injected && e.Applied {
+			// a lost reply: the taint landed but escalator was told it failed
+			r.DC(P, "taint write applied but reported as failed (lost reply)")
+			return
+		}
+	}
 	if adds > 0 {
 		r.Inc(P, "scans-with-taints")
 		margin := U - adds - g.Cfg.Min
@@ -298,7 +305,7 @@ func checkC03(h *History, sc *ScanCtx, g *GroupCtx, r *Report) {
 			}
 			rest := need - wantUntaint
 			if rest > 0 && g.Cache != nil {
-				head := g.Bound() - g.Cache.Desired
+				head := g.Bound() - g.DesiredBefore(nil)
 				if head > 0 && !g.IncreaseTried {
 					r.Violate(P, "below-min-no-cloud-request", "group %s: %d nodes still missing after untainting and head-room %d, but no capacity was requested", g.Cfg.Name, rest, head)
 				}
@@ -352,10 +359,11 @@ func checkC04(h *History, sc *ScanCtx, g *GroupCtx, r *Report) {
 			continue
 		}
 		r.Inc(P, "resize-requests")
-		target := g.Cache.Desired + e.Fleet.Total
+		cur := g.DesiredBefore(e)
+		target := cur + e.Fleet.Total
 		r.Covered(P, fmt.Sprintf("fleet:%s:tobound%s", rel, bucket(bound-target)))
 		if target > bound {
-			r.Violate(P, "fleet-target-above-bound", "group %s: CreateFleet(%d) on desired %d exceeds min(max_nodes=%d, ASG max=%d)", g.Cfg.Name, e.Fleet.Total, g.Cache.Desired, g.Cfg.Max, g.Cache.Max)
+			r.Violate(P, "fleet-target-above-bound", "group %s: CreateFleet(%d) on desired %d exceeds min(max_nodes=%d, ASG max=%d)", g.Cfg.Name, e.Fleet.Total, cur, g.Cfg.Max, g.Cache.Max)
 		}
 	}
 	// clamp lands exactly on the bound / no request without head-room (exact scans only)
@@ -371,21 +379,24 @@ func checkC04(h *History, sc *ScanCtx, g *GroupCtx, r *Report) {
 	if restMin <= 0 {
 		return
 	}
-	head := bound - g.Cache.Desired
+	cur := g.DesiredBefore(nil)
 	requested := int64(0)
 	for _, e := range g.SetDesired {
-		requested = e.Desired - g.Cache.Desired
+		cur = g.DesiredBefore(e)
+		requested = e.Desired - cur
 	}
 	for _, e := range g.Fleets {
 		if e.Fleet != nil {
+			cur = g.DesiredBefore(e)
 			requested = e.Fleet.Total
 		}
 	}
+	head := bound - cur
 	switch {
 	case head <= 0:
 		r.Covered(P, "no-headroom:"+rel)
 		if g.IncreaseTried {
-			r.Violate(P, "request-without-headroom", "group %s: capacity requested although desired %d already reaches the bound %d", g.Cfg.Name, g.Cache.Desired, bound)
+			r.Violate(P, "request-without-headroom", "group %s: capacity requested although desired %d already reaches the bound %d", g.Cfg.Name, cur, bound)
 		}
 	case int64(restMin) > head:
 		r.Covered(P, "clamped:"+rel)
@@ -470,24 +481,26 @@ func checkC05C06C07(h *History, sc *ScanCtx, g *GroupCtx, r *Report) {
 		var reqReal, reqCache int64
 		var atBound bool
 		tried := false
+		cur := g.DesiredBefore(nil)
 		for _, e := range g.SetDesired {
 			tried = true
-			reqReal = e.Desired - e.CloudDesired
+			cur = g.DesiredBefore(e)
+			reqReal = e.Desired - cur
 			reqCache = e.Desired - g.Cache.Desired
 			atBound = e.Desired >= g.Bound()
 		}
 		for _, e := range g.Fleets {
 			if e.Fleet != nil {
 				tried = true
+				cur = g.DesiredBefore(e)
 				reqReal, reqCache = e.Fleet.Total, e.Fleet.Total
-				if g.Cache != nil {
-					atBound = g.Cache.Desired+e.Fleet.Total >= g.Bound()
-				}
+				atBound = cur+e.Fleet.Total >= g.Bound()
 			}
 		}
-		noHead := g.Cache != nil && g.Cache.Desired >= g.Bound()
-		broughtCache := untaints + int(reqCache)
+		noHead := g.Cache != nil && cur >= g.Bound()
+		broughtCache := untaints + int(reqReal)
 		broughtReal := untaints + int(reqReal)
+		_ = reqCache
 		clamped := atBound || (noHead && !tried)
 
 		if p.Stage == oracle.StDecide {
@@ -503,14 +516,14 @@ func checkC05C06C07(h *History, sc *ScanCtx, g *GroupCtx, r *Report) {
 				sig += ":clamped"
 			}
 			r.Covered("C05", sig)
-			r.Sample("C05", fmt.Sprintf("case %s scan %d: U=%d T=%d cpuReq=%v cpuCap=%v threshold=%d need>=%d: untainted %d + requested %d", h.Case, sc.Rec.No, U, T, p.CPUReq, p.CPUCap, g.Cfg.ScaleUp, need.lo, untaints, reqCache))
+			r.Sample("C05", fmt.Sprintf("case %s scan %d: U=%d T=%d cpuReq=%v cpuCap=%v threshold=%d need>=%d: untainted %d + requested %d", h.Case, sc.Rec.No, U, T, p.CPUReq, p.CPUCap, g.Cfg.ScaleUp, need.lo, untaints, reqReal))
 			if !clamped && broughtCache < need.lo {
 				r.Violate("C05", "scale-up-insufficient", "group %s: %d nodes brought into service (untainted %d + requested %d) but %d are needed to sit at or below %d%% (cpu %v/%v mem %v/%v, U=%d)",
-					g.Cfg.Name, broughtCache, untaints, reqCache, need.lo, g.Cfg.ScaleUp, p.CPUReq, p.CPUCap, p.MemReq, p.MemCap, U)
+					g.Cfg.Name, broughtCache, untaints, reqReal, need.lo, g.Cfg.ScaleUp, p.CPUReq, p.CPUCap, p.MemReq, p.MemCap, U)
 			}
 			if broughtCache > need.hi {
 				r.Violate("C05", "scale-up-excess", "group %s: %d nodes brought into service (untainted %d + requested %d), more than one above the %d needed (cpu %v/%v mem %v/%v, U=%d)",
-					g.Cfg.Name, broughtCache, untaints, reqCache, need.lo, p.CPUReq, p.CPUCap, p.MemReq, p.MemCap, U)
+					g.Cfg.Name, broughtCache, untaints, reqReal, need.lo, p.CPUReq, p.CPUCap, p.MemReq, p.MemCap, U)
 			}
 		}
 		// C07: first untaint up to N, then exactly the remainder on top of the current desired size
@@ -524,7 +537,7 @@ func checkC05C06C07(h *History, sc *ScanCtx, g *GroupCtx, r *Report) {
 		if tried && !atBound && broughtReal > need.hi {
 			k := len(g.TermOK)
 			key := "cloud-request-exceeds-remainder"
-			if k > 0 && broughtCache <= need.hi {
+			if k > 0 && untaints+int(reqCache) <= need.hi {
 				key = "cloud-request-ignores-same-scan-terminations"
 			}
 			r.Violate("C07", key, "group %s: requested +%d on top of the real desired capacity (+%d relative to the cached one) after untainting %d: brings %d nodes, at most %d needed (%d instances were terminated earlier in this scan)",
@@ -583,8 +596,8 @@ func checkC05C06C07(h *History, sc *ScanCtx, g *GroupCtx, r *Report) {
 			if adds != 0 {
 				return fmt.Sprintf("tainted %d nodes while above the scale-up threshold", adds)
 			}
-			if !up && (T > 0 || (g.Cache != nil && g.Cache.Desired < g.Bound())) {
-				return fmt.Sprintf("no capacity added above the scale-up threshold (u=%s, tainted=%d, head-room=%d)", ratStr(p.U), T, g.Bound()-g.Cache.Desired)
+			if !up && (T > 0 || (g.Cache != nil && g.DesiredBefore(nil) < g.Bound())) {
+				return fmt.Sprintf("no capacity added above the scale-up threshold (u=%s, tainted=%d, head-room=%d)", ratStr(p.U), T, g.Bound()-g.DesiredBefore(nil))
 			}
 		}
 		return ""
@@ -593,7 +606,7 @@ func checkC05C06C07(h *History, sc *ScanCtx, g *GroupCtx, r *Report) {
 		if adds != 0 {
 			return fmt.Sprintf("exception trigger must not taint, saw %d taints", adds)
 		}
-		if !up && (T > 0 || (g.Cache != nil && g.Cache.Desired < g.Bound())) {
+		if !up && (T > 0 || (g.Cache != nil && g.DesiredBefore(nil) < g.Bound())) {
 			return "exception trigger must scale up by at least one node, nothing happened"
 		}
 		return ""
